@@ -807,6 +807,8 @@ class Built(object):
             return {'u_tag': tag, 'u_n': 3}
         if b == 'raises':
             raise UserError('injected: metadata extractor fails')
+        if b == 'interrupts':
+            raise InterruptLike('injected: the process is interrupted while the metadata extractor runs')
         if b == 'junk_none':
             return None
         if b == 'junk_int':
@@ -904,6 +906,11 @@ class Built(object):
             ex = UserError()
             ex.resource = Unencodable()
             raise ex
+        if fault == 'raise_framework_error':
+            # an exception of the framework's own family escapes from the operation (a lookup of another recording inside it found nothing)
+            from playback.exceptions import NoSuchRecording
+            self.fault_log.append((pos, fault))
+            raise NoSuchRecording('reference-recording-that-does-not-exist')
         if fault == 'raise_interrupt':
             self.fault_log.append((pos, fault))
             raise InterruptLike('injected at step %r' % (pos,))
